@@ -35,6 +35,9 @@ pub enum MOp {
     SaveLoad,
     /// `set_source(i, get_source(i))`: write back what the map currently reads for that source
     SetSourceToReading(u16),
+    SetFile(Option<String>),
+    SetDebugId(Option<String>),
+    AddToIgnoreList(u16),
 }
 
 #[derive(Clone, Debug, Hash, Serialize, Deserialize)]
@@ -259,6 +262,9 @@ fn check(c: &Case, obs: &mut Obs) -> Verdict {
     // map phase
     let mut raw = m.sources.clone();
     let mut root = m.root.clone();
+    let mut file = m.file.clone();
+    let mut debug_id = m.debug_id;
+    let mut ignore: std::collections::BTreeSet<u32> = m.ignore.iter().copied().collect();
     let mut seen_root_before_source = false;
     let mut seen_set_source = false;
     let mut root_after_source = false;
@@ -290,11 +296,35 @@ fn check(c: &Case, obs: &mut Obs) -> Verdict {
                         sm.set_source(i, &reading);
                     }
                 }
+                MOp::SetFile(f) => {
+                    file = f.clone();
+                    sm.set_file(f.clone());
+                }
+                MOp::SetDebugId(d) => {
+                    debug_id = d.as_ref().map(|d| d.parse().expect("pool ids parse"));
+                    sm.set_debug_id(debug_id);
+                }
+                MOp::AddToIgnoreList(sel) => {
+                    if let Some(i) = pick_id(Some(*sel), raw.len()) {
+                        ignore.insert(i);
+                        sm.add_to_ignore_list(i);
+                    }
+                }
                 MOp::SaveLoad => {
                     let mut out = vec![];
                     sm.to_writer(&mut out).map_err(|e| format!("to_writer: {e}"))?;
                     sm = SourceMap::from_slice(&out).map_err(|e| format!("from_slice of own output: {e}; bytes={}", String::from_utf8_lossy(&out)))?;
                 }
+            }
+            if sm.get_file().map(str::to_string) != file {
+                return Err(format!("{stage}: get_file() = {:?}, last set to {file:?}", sm.get_file()));
+            }
+            if sm.get_debug_id() != debug_id {
+                return Err(format!("{stage}: get_debug_id() = {:?}, last set to {debug_id:?}", sm.get_debug_id()));
+            }
+            let ign: std::collections::BTreeSet<u32> = sm.ignore_list().copied().collect();
+            if ign != ignore {
+                return Err(format!("{stage}: ignore_list() = {ign:?}, expected {ignore:?}"));
             }
             check_map_against(&sm, &raw, &root, &contents, &stage)
         });
@@ -323,6 +353,9 @@ fn check(c: &Case, obs: &mut Obs) -> Verdict {
                 obs.class("set_source(current reading)");
             }
             MOp::SaveLoad => saveload = true,
+            MOp::SetFile(_) => obs.class("set_file-on-map"),
+            MOp::SetDebugId(_) => obs.class("set_debug_id-on-map"),
+            MOp::AddToIgnoreList(_) => obs.class("add_to_ignore_list-on-map"),
         }
     }
     obs.class_if(readded, "string-added-twice-non-consecutively");
@@ -381,6 +414,9 @@ fn mop() -> BoxedStrategy<MOp> {
         2 => (any::<u16>(), content_opt()).prop_map(|(i, t)| MOp::SetSourceContents(i, t)),
         2 => Just(MOp::SaveLoad),
         2 => any::<u16>().prop_map(MOp::SetSourceToReading),
+        1 => proptest::option::of(proptest::sample::select(vec!["out.js", "", "dist/ö.js"]).prop_map(str::to_string)).prop_map(MOp::SetFile),
+        1 => proptest::option::of(proptest::sample::select(vec!["dfb8e43a-f242-3d73-a453-aeb6a777ef75", "00000000-0000-0000-0000-000000000001", "dfb8e43a-f242-3d73-a453-aeb6a777ef75-a"]).prop_map(str::to_string)).prop_map(MOp::SetDebugId),
+        1 => any::<u16>().prop_map(MOp::AddToIgnoreList),
     ]
     .boxed()
 }
